@@ -1173,6 +1173,37 @@ def _vec(node, env):
     raise _NoVec(type(node).__name__)
 
 
+def _float_array(node):
+    """Is the array expression float whatever the types of its inputs?
+    (explicit float dtype, .astype(float), or numpy promotion with an array
+    / scalar of float literals)."""
+    FL = ('float', 'np.float64', 'np.float_', "'float'", "'float64'",
+          "'f8'", 'np.double')
+    if isinstance(node, ast.Call):
+        f = ast.unparse(node.func)
+        for kw in node.keywords:
+            if kw.arg == 'dtype':
+                return ast.unparse(kw.value) in FL
+        if isinstance(node.func, ast.Attribute) and \
+                node.func.attr == 'astype' and node.args:
+            return ast.unparse(node.args[0]) in FL
+        if f in ('np.array', 'np.asarray') and len(node.args) == 2:
+            return ast.unparse(node.args[1]) in FL
+        if f in ('np.array', 'np.asarray', 'np.r_') and node.args and \
+                isinstance(node.args[0], (ast.List, ast.Tuple)):
+            return any(_float_array(e) for e in node.args[0].elts)
+        return False
+    if isinstance(node, ast.Constant):
+        return isinstance(node.value, float)
+    if isinstance(node, ast.UnaryOp):
+        return _float_array(node.operand)
+    if isinstance(node, ast.BinOp):
+        if isinstance(node.op, ast.Div):
+            return True
+        return _float_array(node.left) or _float_array(node.right)
+    return False
+
+
 def rule_survey_domain(ctx, mod, fn, D):
     """The survey domain of one direction: given > distance > vector, and the
     distance form is sign-agnostic [centre - |d0|, centre + |d1|]."""
@@ -1233,6 +1264,15 @@ def rule_survey_domain(ctx, mod, fn, D):
               '(or the vector takes precedence over domain / distance): '
               'nodes of the provided vector fall outside the survey domain '
               'and are cut, or the requested domain is ignored', ctx.where(mod, n))
+    for k in ('domain', 'distance', 'vector'):
+        n = arms[k][0][0]
+        ctx.check('C16.G9.survey_domain', f'survey domain from {k} is a '
+                  'float array', _float_array(n.value), 'the survey domain '
+                  f'built from `{k}` takes the integer type of its inputs: '
+                  'the expansion to a fractional sea surface `domain[1] = '
+                  'max(domain[1], seasurface)` is truncated and the mesh '
+                  'falls short of survey domain + buffer (F40)',
+                  ctx.where(mod, n))
     n, g = arms['domain'][0]
     txt = ast.unparse(n.value).replace(' ', '')
     okd = txt.startswith(('np.array(' + D, 'np.asarray(' + D,
